@@ -213,4 +213,38 @@ def run(ctx):
                 run.finding(Finding(R4, fid.split("::{closure")[0], "a decoded byte string of any length is handed to %s's deserialiser, which copies it into a fixed %d byte buffer without a bound: an over-long hex string in a slate panics the decoder" % (t["trself"].split("::")[-1], cap), site=c.site_of(f, b)))
     if n4 == 0:
         run.error("C09.R4: no fixed-buffer deserialiser call found (anchor missing)")
+    R5 = "C09.R5"
+    run.rule(R5, "a key list handed to the C library's combine function is not empty (secp256k1_ec_pubkey_combine ARG_CHECKs n >= 1; the failed check calls a NULL callback: the process dies, no Rust panic, nothing contains it) - a decoded slate without participants reaches it through the upgrade step", floor=2)
+    n5 = 0
+    for fid, f in sorted(db.fns.items()):
+        if non_production(fid):
+            continue
+        for b, t in f.calls():
+            if not (t.get("f") or "").endswith("key::PublicKey::from_combination"):
+                continue
+            n5 += 1
+            vec = vf.strip_clones(f, t["a"][1]) if len(t["a"]) > 1 else None
+            fl5 = vf.get_flow(f)
+            held = False
+            for x in cfg.comparisons(f):
+                for a, o_ in ((x.l, x.r), (x.r, x.l)):
+                    srcs = fl5.of_operand(a) | vf.producers(f, a)
+                    lens = [y for y in srcs if y[0] in ("call", "mutcall") and y[1].endswith("::len")]
+                    if not lens or vf.const_of_operand(f, o_) != "0":
+                        continue
+                    if not any(vf.strip_clones(f, f.bbs[y[2]]["t"]["a"][0]) == vec for y in lens if len(y) > 2):
+                        continue
+                    nonempty = x.false_edges if x.op == "Eq" else (x.true_edges if x.op in ("Ne", "Gt") else set())
+                    if nonempty and cfg.must_pass(f, nonempty, {b})[0]:
+                        held = True
+            for eb, et in f.calls():
+                if (et.get("f") or "").endswith("::is_empty") and vf.strip_clones(f, et["a"][0]) == vec:
+                    g = cfg.call_guard(f, eb)
+                    if g.fail and cfg.must_pass(f, g.fail, {b})[0]:
+                        held = True
+            run.instance(R5, {"fn": pp.short(fid), "obligation": "from_combination only on the non-empty edge of a length test of the same list", "site": c.site_of(f, b)}, held=held)
+            if not held:
+                run.finding(Finding(R5, fid, "PublicKey::from_combination can be reached with an empty key list: the C library's argument check fails into a NULL callback and the process dies (a V4 slate with `sigs: []` and `coms` present is enough, on the foreign listener too)", site=c.site_of(f, b)))
+    if n5 < 2:
+        run.error("C09.R5: expected the two from_combination calls of Slate (pub_nonce_sum, pub_blind_sum), found %d" % n5)
     run.not_decided += ["panics inside dependencies (age, bs58, bech32, serde_json, ring, grin_core::ser): no MIR for them here", "stack depth / recursion in serde_json for deeply nested input"]
